@@ -356,8 +356,10 @@ def run_worker(sc: Dict[str, Any], register: Optional[Callable[..., None]] = Non
     try:
         try:
             loop.run_until_complete(main())
+            res["trace"] = list(tr.ev)   # events recorded by the clean-up below are not observations
         except Deadlock as exc:
             res["deadlock"] = True
+            res["trace"] = list(tr.ev)
             res["deadlock_msg"] = str(exc)
     finally:
         loop.max_iterations = 0
@@ -377,7 +379,7 @@ def run_worker(sc: Dict[str, Any], register: Optional[Callable[..., None]] = Non
         finally:
             loop.close()
             asyncio.set_event_loop(None)
-    res["trace"] = tr.ev
+    res.setdefault("trace", list(tr.ev))
     res["backend"] = rb
     res["broker"] = b
     return res
